@@ -9,6 +9,23 @@
 //               the ONE filter object of the line in exactly that order and the output is one
 //               character 1/0 per query (no separators) — a verdict must not depend on what the
 //               object was asked before.
+//               The query field may start with a STORAGE prefix that says where the category NAME of the
+//               messages lives (a verdict is a function of the name's TEXT, never of its address):
+//                 (none) every category of the line in its own QByteArray, alive for the whole line
+//                        (distinct names at distinct, stable addresses - string constants);
+//                 B/     ONE reused char buffer, overwritten in place before every query: consecutive
+//                        queries present different names at the SAME address;
+//                 H/     a malloc'ed copy of the name per query, freed after the query (the allocator
+//                        recycles the block for the next name of the same size class);
+//                 C/     through LogMessage COPIES: the message is built from a scratch buffer, copied
+//                        (the copy keeps the name in its own heap QByteArray), the original destroyed and
+//                        the scratch buffer scribbled over; the COPY is filtered and then destroyed, so the
+//                        allocator hands the same block to the next copy;
+//                 S/     B/ and, after every query, the buffer is overwritten with a decoy name that is
+//                        never asked (a memo must not trust that the bytes behind a pointer stay put).
+//               With a prefix the output line is  <verdicts> <flags>  : flags has one character per query,
+//               '=' when the name pointer handed to filter() equals the previous query's pointer and the
+//               name differs, '+' same pointer same name, '.' otherwise (coverage of the trigger).
 // One CategoryFilter is constructed per line (rules parsed once), as an application would.
 // The category reaches the filter exactly as in production: as the `const char *category` of a
 // QMessageLogContext (UTF-8 bytes), read back through LogMessage::category().
@@ -23,6 +40,9 @@
 #include "qtlogger/qtlogger.h"
 #endif
 #include <QLoggingCategory>
+#include <algorithm>
+#include <cstdlib>
+#include <cstring>
 #include <iostream>
 #include <sstream>
 #include <string>
@@ -80,6 +100,20 @@ int main(int argc, char **argv)
             std::vector<QByteArray> cats;
             while (std::getline(cl, c, ','))
                 cats.push_back(unhex16(c).toUtf8());
+            char storage = 0;
+            if (qs.size() >= 2 && qs[1] == '/') {
+                storage = qs[0];
+                qs = qs.substr(2);
+            }
+            size_t maxLen = 0;
+            for (const QByteArray &c2 : cats)
+                maxLen = std::max(maxLen, size_t(c2.size()));
+            std::vector<char> reused(maxLen + 8, '\0');      // B/, S/: the one name buffer
+            std::vector<char> scratch(maxLen + 8, '\0');     // C/: where the original's name lives
+            std::string flags;
+            const char *prevPtr = nullptr;
+            QByteArray prevName;
+            bool havePrev = false;
             std::stringstream ql(qs);
             std::string q;
             while (std::getline(ql, q, ',')) {
@@ -88,14 +122,57 @@ int main(int argc, char **argv)
                 const size_t ti = std::stoul(q.substr(colon + 1));
                 if (ci >= cats.size() || ti >= 5) {
                     o << '?';
+                    flags += '?';
                     continue;
                 }
                 const QByteArray &cat = cats[ci];
-                const char *cp = (cat.isEmpty() && nullForEmpty) ? nullptr : cat.constData();
-                QMessageLogContext ctx("file.cpp", 1, "void fn()", cp);
-                LogMessage m(types[ti], ctx, QStringLiteral("text"));
-                o << (f.filter(m) ? '1' : '0');
+                const bool asNull = cat.isEmpty() && nullForEmpty;
+                const char *cp = nullptr;      // the pointer filter() sees through LogMessage::category()
+                bool verdict = true;
+                if (storage == 'B' || storage == 'S') {
+                    std::memcpy(reused.data(), cat.constData(), size_t(cat.size()) + 1);
+                    const char *np = asNull ? nullptr : reused.data();
+                    QMessageLogContext ctx("file.cpp", 1, "void fn()", np);
+                    LogMessage m(types[ti], ctx, QStringLiteral("text"));
+                    cp = m.category();
+                    verdict = f.filter(m);
+                    if (storage == 'S')
+                        std::memcpy(reused.data(), "~decoy~", 8);    // reused has maxLen + 8 bytes
+                } else if (storage == 'H') {
+                    char *hp = static_cast<char *>(std::malloc(size_t(cat.size()) + 1));
+                    std::memcpy(hp, cat.constData(), size_t(cat.size()) + 1);
+                    {
+                        QMessageLogContext ctx("file.cpp", 1, "void fn()", asNull ? nullptr : hp);
+                        LogMessage m(types[ti], ctx, QStringLiteral("text"));
+                        cp = m.category();
+                        verdict = f.filter(m);
+                    }
+                    std::memset(hp, '#', size_t(cat.size()));
+                    std::free(hp);
+                } else if (storage == 'C') {
+                    std::memcpy(scratch.data(), cat.constData(), size_t(cat.size()) + 1);
+                    QMessageLogContext ctx("file.cpp", 1, "void fn()", asNull ? nullptr : scratch.data());
+                    LogMessage *orig = new LogMessage(types[ti], ctx, QStringLiteral("text"));
+                    LogMessage *copy = new LogMessage(*orig);
+                    delete orig;
+                    std::memset(scratch.data(), '#', size_t(cat.size()));
+                    cp = copy->category();
+                    verdict = f.filter(*copy);
+                    delete copy;
+                } else {
+                    cp = asNull ? nullptr : cat.constData();
+                    QMessageLogContext ctx("file.cpp", 1, "void fn()", cp);
+                    LogMessage m(types[ti], ctx, QStringLiteral("text"));
+                    verdict = f.filter(m);
+                }
+                o << (verdict ? '1' : '0');
+                flags += (havePrev && cp == prevPtr && cp != nullptr) ? (cat == prevName ? '+' : '=') : '.';
+                prevPtr = cp;
+                prevName = cat;
+                havePrev = true;
             }
+            if (storage)
+                o << ' ' << flags;
             std::cout << o.str() << "\n";
             continue;
         }
